@@ -27,7 +27,14 @@ void h_fold(void) {
     bigint res_int = 0, res_wide = 0; double res_float = 0;
     op1_unsigned64 = nondet_bool(); op2_unsigned64 = nondet_bool(); calc_result_unsigned = nondet_biguint();
     if (comp) __CPROVER_assume((val == 0 || val == 1) && calc_result_unsigned <= 1);
+    res_bound_point = nondet_bool(); op_may_wrap = nondet_bool(); fold_dropped = 0;
     fold_block(val, 0, imp, comp, hasvt, s, ptr, sz, &res_int, &res_wide, &res_float);
+    /* C01: a bound (x > v, x < v) of an operand says nothing about the result of unsigned arithmetic that can wrap around */
+    if (imp && !res_bound_point && !comp && hasvt && s == Sign_UNSIGNED && !ptr && sz >= 1 && sz < 8 && op_may_wrap) {
+        __CPROVER_assert(fold_dropped, "an impossible bound is not handed on through + - * << of an unsigned type of less than 64 bits");
+        return;
+    }
+    __CPROVER_assert(!fold_dropped, "every other result is handed on");
     if (comp && (op1_unsigned64 || op2_unsigned64)) {
         __CPROVER_assert(res_int == (bigint)calc_result_unsigned, "operands whose common type is unsigned 64 bits are compared as unsigned values");
     } else if (!imp && !comp && hasvt && s == Sign_UNSIGNED && !ptr && sz >= 1 && sz < 8) {
@@ -39,7 +46,7 @@ void h_fold(void) {
 }
 void h_cover(void) {
     bigint res_int = 0, res_wide = 0; double res_float = 0;
-    op1_unsigned64 = 0; op2_unsigned64 = 0; calc_result_unsigned = 0;
+    op1_unsigned64 = 0; op2_unsigned64 = 0; calc_result_unsigned = 0; res_bound_point = 1; op_may_wrap = 1;
     fold_block(4294967296LL, 0, 0, 0, 1, Sign_UNSIGNED, 0, 4, &res_int, &res_wide, &res_float);
     __CPROVER_assert(!(res_int == 0 && res_wide == 4294967296LL), "COVER: 4294967295u + 1u");
     fold_block(-5, 0, 0, 0, 1, Sign_SIGNED, 0, 4, &res_int, &res_wide, &res_float);
@@ -110,13 +117,16 @@ def build(ctx):
         (r'\bparent->valueType\(\)->pointer\b', 'vt_pointer', 0, 1),
         (r'\bparent->valueType\(\)->getSizeOf\(settings,\s*ValueType::Accuracy::ExactOrZero,\s*ValueType::SizeOf::Pointer\)', 'vt_size', 0, 1),
         (r'\bresult\.wideintvalue = ', '*res_wide = ', 0, 1),
+        (r'\bresult\.bound != Value::Bound::Point\b', '!res_bound_point', 0, 1),
+        (r'\bToken::Match\(parent,\s*"\+\|-\|\*\|<<"\)', 'op_may_wrap', 0, 1),
+        (r'\bcontinue\s*;', '{ fold_dropped = 1; return; }', 0, 1),
         (r'\bresult\.intvalue = ', '*res_int = ', 1, 1),
     ], ID); n += k
     if re.search(r'\bparent\b|result\.|settings|std::', extract.mask(t)):
         raise extract.ExtractError("K61: folding block not fully lowered: %r" % re.findall(r'[^\n]*(?:\bparent\b|result\.|settings|std::)[^\n]*', extract.mask(t))[:3])
     kb.rules_fired = n
     text = (_common.BASE + enums + trunc +
-            "_Bool op1_unsigned64, op2_unsigned64;   /* an operand has an unsigned 64-bit integer type (isUnsigned64) */\nbiguint calc_result_unsigned;           /* calculate() on the operand values as unsigned 64-bit values */\n"
+            "_Bool res_bound_point, op_may_wrap, fold_dropped;   /* the result's bound is Point; the operator is + - * <<; no value is handed on */\n_Bool op1_unsigned64, op2_unsigned64;   /* an operand has an unsigned 64-bit integer type (isUnsigned64) */\nbiguint calc_result_unsigned;           /* calculate() on the operand values as unsigned 64-bit values */\n"
             "static void fold_block(bigint calc_result, _Bool res_is_float, _Bool res_impossible, _Bool parent_is_comp, _Bool parent_has_vt, enum Sign vt_sign, int vt_pointer, size_t vt_size, bigint *res_int, bigint *res_wide, double *res_float)\n{\n%s\n}\n"
             % extract.strip_comments(t))
     extract.residue_scan(text, ID)
@@ -126,7 +136,7 @@ def build(ctx):
     kb.assumptions += ["calculate() on unsigned 64-bit operand values (the biguint instantiation of the template) is an input, not verified",
                        "region interface: the result of calculate() (K06) is an input; the parent's ValueType as (has, sign, pointer, size) with ValueType::getSizeOf an oracle; astIsUnsigned is `valueType() && sign == UNSIGNED`",
                        "operands are converted to the common type before (K60); division and remainder of converted operands need no reduction",
-                       "impossible results (bounds) are not reduced: recorded finding K44.stmt-unsigned-wrap covers that class"]
+                       "impossible point values (x != v) are handed on unreduced; impossible bounds of 64-bit unsigned results are handed on (the recorded finding K44.stmt-unsigned-wrap and TestStl::outOfBounds concern that width)"]
 
     def rp(inputs, ctx):
         rc, o, cmd = native.compile_run("replay_K61", REPLAY_CPP, [])
